@@ -347,6 +347,8 @@ def grid_program_strategy(max_ops=5):
             "rotation": draw(_maybe(angle_strategy(EXACT_ANGLES), 0.2)),
             "dip": draw(_maybe(angle_strategy(EXACT_DIPS))),
             "vertical": draw(st.sampled_from([None, None, None, True, False])),
+            # how truth values are handed to the `vertical` attribute: the Python singletons, 0 / 1, NumPy booleans
+            "vertical_as": draw(st.sampled_from(["bool", "bool", "int", "np"])),
         }
         setter = st.one_of(
             st.tuples(st.just("origin"), origin_strategy()),
@@ -451,7 +453,8 @@ def curve_program_strategy(max_ops=5):
             create["cells"], create["style"] = draw(cells(n))
         ops = [{"op": draw(st.sampled_from(["read_cells", "read_parts"]))}]
         for _ in range(draw(st.integers(0, max_ops))):
-            kind = draw(st.sampled_from(["read_cells", "read_parts", "read_parts", "set_parts", "set_cells"]))
+            kind = draw(st.sampled_from(["read_cells", "read_parts", "read_parts", "set_parts", "set_cells",
+                                         "reassign_parts"]))
             if kind == "set_parts":
                 ops.append({"op": "set_parts", "labels": draw(labels(n))})
             elif kind == "set_cells":
